@@ -47,6 +47,8 @@ Fixpoint split2_aux (sep : ascii) (cur_rev : bytes) (s : bytes) : bytes * option
   end.
 Definition split2 (sep : ascii) (s : bytes) := split2_aux sep [] s.
 
+Definition is_blank (c : ascii) : bool := Ascii.eqb c " " || Ascii.eqb c TAB.
+
 (* lib.StripEmpties *)
 Definition strip_empties (l : list bytes) : list bytes :=
   filter (fun x => match x with [] => false | _ => true end) l.
@@ -96,21 +98,21 @@ Fixpoint dkvp_kvs (i : N) (pairs : list bytes) : list (bytes * bytes) :=
   end.
 Definition dkvp_line (l : bytes) : option record := put_all (dkvp_kvs 0%N (split_string "," l)) [].
 
-(* ---- NIDX line: recordFromNIDXLine, keys 1..n.  --inidx splits with the regex "( )+" (regexp.Split, and "" gives no
-        fields): every maximal run of spaces is ONE separator; a leading/trailing run leaves an empty first/last field *)
-Fixpoint split_runs_aux (sep : ascii) (cur_rev : bytes) (in_run : bool) (s : bytes) : list bytes :=
+(* ---- NIDX line: recordFromNIDXLine, keys 1..n.  --inidx splits with cli.WHITESPACE_REGEX "([ \t])+" (regexp.Split, and ""
+        gives no fields): every maximal run of spaces/tabs is ONE separator; a leading/trailing run leaves an empty first/last field *)
+Fixpoint split_runs_aux (sep : ascii -> bool) (cur_rev : bytes) (in_run : bool) (s : bytes) : list bytes :=
   match s with
   | [] => [rev cur_rev]
-  | c :: t => if Ascii.eqb c sep
+  | c :: t => if sep c
               then (if in_run then split_runs_aux sep [] true t else rev cur_rev :: split_runs_aux sep [] true t)
               else split_runs_aux sep (c :: cur_rev) false t
   end.
-Definition split_runs (sep : ascii) (s : bytes) : list bytes :=
+Definition split_runs (sep : ascii -> bool) (s : bytes) : list bytes :=
   match s with [] => [] | _ => split_runs_aux sep [] false s end.
 
 Fixpoint number_from (i : N) (vals : list bytes) : list (bytes * bytes) :=
   match vals with [] => [] | v :: t => (N_to_dec i, v) :: number_from (i + 1)%N t end.
-Definition nidx_line (l : bytes) : record := number_from 1%N (split_runs " " l).
+Definition nidx_line (l : bytes) : record := number_from 1%N (split_runs is_blank l).
 
 Fixpoint map_lines (f : bytes -> option record) (ls : list bytes) : result :=
   match ls with
@@ -124,7 +126,7 @@ Fixpoint map_lines (f : bytes -> option record) (ls : list bytes) : result :=
 Definition read_dkvp (s : bytes) : result := map_lines dkvp_line (split_lines s).
 Definition read_nidx (s : bytes) : result := map_lines (fun l => Some (nidx_line l)) (split_lines s).
 
-(* ---- TSV: lib.TSVDecodeField on data fields only (header keys are used verbatim) *)
+(* ---- TSV: lib.TSVDecodeField on data fields and (since /repo commit d7dac80b0) on header fields *)
 Fixpoint tsv_decode (s : bytes) : bytes :=
   match s with
   | [] => []
@@ -160,10 +162,12 @@ Fixpoint tsv_data (hdr : list bytes) (line : N) (ls : list bytes) : result :=
       else ErrMismatch (N.of_nat (List.length hdr)) (nfields l) line
   end.
 
+Definition tsv_header (h : bytes) : list bytes := map tsv_decode (split_string TAB h).
+
 Definition read_tsv (s : bytes) : result :=
   match split_lines s with
   | [] => Ok []
-  | h :: t => tsv_data (split_string TAB h) 2%N t
+  | h :: t => tsv_data (tsv_header h) 2%N t
   end.
 
 (* the malformed class of the TSV reader: some data line whose field count differs from the header line's *)
